@@ -54,6 +54,8 @@ SERVER_CONF = {
     # no automatic flush: the memtable is flushed only where the behaviour says so
     "data.memtable": {"write-cold-duration": '"1h"', "force-snapShot-duration": '"1h"'},
     "data.merge": {"min-interval": '"1s"'},
+    # two databases with three policies each per behaviour: the thorough tier has more than the default of 100 policies
+    "coordinator": {"rp-limit": "100000"},
 }
 EMPTY_ERRORS = ("measurement not found", "measurement is being delete", "database not found", "retention policy not found",
                 "retention policy is being delete", "database is being delete", "policy not exist")
@@ -182,10 +184,11 @@ def gen_behaviours(tier, seed):
                     if e["a"].endswith("Finish"):
                         sc += 2
                 return sc
+            per_new = per if quick else 20          # thorough: 36 per skeleton A-E, 20 per skeleton G H P Q
             if k in GROUPED:
-                hs = sorted(hs, key=lambda h: (-late_group(h), -drops(h)))[:per]
+                hs = sorted(hs, key=lambda h: (-late_group(h), -drops(h)))[:per_new]
             elif k in PHASED:
-                hs = sorted(hs, key=lambda h: (-races(h), -drops(h)))[:per]
+                hs = sorted(hs, key=lambda h: (-races(h), -drops(h)))[:per_new]
             else:
                 first = sorted([h for h in hs if ooo(h)], key=lambda h: -drops(h))[:per // 3]
                 rest = sorted([h for h in hs if h not in first], key=lambda h: -drops(h))
@@ -1746,6 +1749,10 @@ def run_batches(sets, seed):
         t.start()
     for t in ths:
         t.join()
+    # the root cause first: "batch aborted" is what the other behaviours of a batch report once one of them has failed
+    roots = [x.error for b in batches for x in getattr(b, "behaviours", []) if isinstance(x.error, vlib.Infra) and str(x.error) != "batch aborted"]
+    if roots:
+        raise roots[0]
     for b in batches:
         if b.infra:
             if isinstance(b.infra, vlib.Infra):
